@@ -26,6 +26,7 @@ ASSUMPTIONS = ["random.choice(seq) returns seq[i] for the scripted i; random.ran
                "(adjacency order is an oracle answer the model validates as a permutation of its own corner)"]
 TRUSTED = ["instrumentation: get_all_edges / swap_condition wrapped on the instance, DrawSet.draw wrapped to observe "
            "the draw set; numerator/denominator read from the frame of swap_condition at the random.random() call"]
+PARTIAL = ['the shape clause (edges sharing a motif id keep the motif shape) is FALSE for the current code (C11_shape_refuted; open known finding, crossed motif ids) and proved only for the repaired id rule (C11_shape_fixed)', "clauses that hold by construction of a functional model (input network untouched, same vertex set and annotations) are established on the code by the harness's deep before/after comparison, not by a theorem"]
 TECHNIQUE = ("Coq proof (swap invariant, induction over the oracle stream of the rewiring state machine, verified "
              "decidable invariant checker) + model/implementation correspondence under scripted randomness")
 LEVEL_TEXT = (
